@@ -409,3 +409,15 @@ Lemma find_specific_skips_declining : forall regs sp rest operands count,
 Proof.
   intros regs sp rest operands count Hc Hm. cbn [find_specific]. rewrite Hc, Z.eqb_refl. cbn [negb]. rewrite Hm. reflexivity.
 Qed.
+
+(* ---------- a register name is a register name in any letter case (D53) ---------- *)
+Lemma reg_mem_case : forall n n' regs, map lower n = map lower n' -> reg_mem n regs = reg_mem n' regs.
+Proof. intros n n' regs H. unfold reg_mem. rewrite H. reflexivity. Qed.
+
+Lemma reg_mem_declared_case : forall n regs regs', map (map lower) regs = map (map lower) regs' -> reg_mem n regs = reg_mem n regs'.
+Proof. intros n regs regs' H. unfold reg_mem. rewrite H. reflexivity. Qed.
+
+(* an expression that names a register, however spelled, is not accepted as a number *)
+Lemma mentions_register_in : forall regs e x,
+  In x (expr_labels e) -> reg_mem x regs = true -> mentions_register regs e = true.
+Proof. intros regs e x Hin Hr. unfold mentions_register. apply existsb_exists. exists x. split; assumption. Qed.
